@@ -55,7 +55,8 @@ class Run:
         from .base import frame_digest
 
         self.price_input_digest = frame_digest(px)
-        self.act = make_actuator([a.market for a in ctx.adapters], assets, self.strategy, px, quote, interval=interval)
+        self.act = make_actuator([a.market for a in ctx.adapters], assets, self.strategy, px, quote, interval=interval,
+                                 allow_negative=getattr(world, "allow_negative", False))
         ctx.broker = self.act.broker
         ctx.prices = self.act.token_prices if hasattr(self.act, "token_prices") else px
         self.error = None
